@@ -1,96 +1,185 @@
 ----------------------------- MODULE ScoreAssign -----------------------------
 (***************************************************************************)
 (* Competing peak-to-grain assignment: cImageD11.score_and_assign          *)
-(* (src/closest.c:367-395) driven by indexing.indexer.fight_over_peaks /   *)
-(* getind / refinegrains.assignlabels.                                     *)
+(* (src/closest.c:367-395) as driven by every caller in the code base:     *)
+(*   indexing.indexer.fight_over_peaks  (labels -1, drlv2 2, labels 0..)   *)
+(*   indexing.indexer.getind            (labels 0, drlv2 1, label 1)       *)
+(*   refinegrains.assignlabels          (labels -1, drlv2 1, labels 0..,   *)
+(*                                       g-vectors recomputed per grain:   *)
+(*                                       only changes where err comes from)*)
+(*   nbGui.nb_utils.assign_peaks_to_grains (labels 0 (!), drlv2 1, labels  *)
+(*                                       0..: the first grain's label is   *)
+(*                                       what the buffer is filled with)   *)
+(*   sinograms.sinogram.GrainSinogram.prepare_peaks_from_2d (labels 0,     *)
+(*                                       drlv2 1, one grain, any label)    *)
+(* and a caller that keeps its buffers between passes (stale labels and    *)
+(* stale drlv2, the same label presented again after its UBI changed).     *)
 (*                                                                         *)
-(* constants  G (number of grains), K (number of peaks), E: the error of   *)
-(*            grain g on peak k is err[g][k] in 0..E, where E stands for   *)
-(*            "not within tolerance" (only the order and the cut matter)   *)
-(* variables  err, order (the sequence in which grains are presented),     *)
-(*            labels[k] (-1 = unassigned), drlv2[k] (E = the initial       *)
-(*            "tol^2 or worse" value), call (position in order), pend (the *)
-(*            chunks of the running call not yet executed - the OpenMP     *)
-(*            schedule(static,4096) may run them in any order), nret (the  *)
-(*            count accumulated by the running call), rets (returned n)    *)
-(* actions    Call (open the next call), Chunk(c) (loop body on the peaks  *)
-(*            of chunk c: take / release / leave), Return                  *)
-(* checked    at the end: labels[k] = the grain with the smallest error    *)
-(*            among those < E (the first presented one on exact ties),     *)
-(*            -1 if none; drlv2[k] = that minimum; returned n of each call *)
-(*            = number of peaks it took; histogram of labels = per-grain   *)
-(*            counts; OrderIndependent: tables without ties give the same  *)
-(*            final labels for every order (checked as: final labels are a *)
-(*            function of err only).  Represent (optional) models calling  *)
-(*            a label again with its own table: peaks it still wins stay.  *)
+(* constants  G   labels are 1..G (the model numbers them from 1; -1 is    *)
+(*                "unassigned"; 0 stands for any value that is no          *)
+(*                presented label)                                         *)
+(*            R   rows (UBIs).  Row r carries label RowLabel(r): rows      *)
+(*                1..G are the grains, rows G+1..R are later versions of   *)
+(*                grains 1..R-G (the grain moved / was refined)            *)
+(*            K   peaks, E: the error of row r on peak k is err[r][k] in   *)
+(*                0..E where E stands for "not within tolerance" (only     *)
+(*                the order and the cut matter)                            *)
+(*            N   0: every row is presented exactly once, in any order;    *)
+(*                n > 0: every sequence of 1..n rows (histories)           *)
+(*            LInitU, LInitNN, DInit  what a cell of the labels / drlv2    *)
+(*                buffer may hold when the first call is made: -1 if       *)
+(*                LInitU, the values in LInitNN (0 = no presented label,   *)
+(*                g = label g); drlv2 values in DInit (a .cfg file cannot  *)
+(*                hold a negative number, hence the two constants)         *)
+(* variables  err, order (the sequence of rows presented), lab0, dr0 (the  *)
+(*            initial buffers), labels[k], drlv2[k], call (position in     *)
+(*            order), pend (peaks of the running call whose loop body has  *)
+(*            not run yet: the OpenMP schedule(static,4096) may run them   *)
+(*            in any order; one peak at a time is finer than any chunking),*)
+(*            nret (count accumulated by the running call), rets (returned *)
+(*            n per call), snaps (buffers after every call, emitted)       *)
+(* actions    Call (open the next call); the three branches of the loop    *)
+(*            body for one pending peak: TakeP(k) (err < E and err <       *)
+(*            drlv2[k]: label and error stored, n++), ReleaseP(k) (not     *)
+(*            taken and labels[k] = the presented label: labels[k] := -1), *)
+(*            LeaveP(k) (neither); Return                                  *)
+(* checked    ClosedForm / Counts: between calls, for ANY history and ANY  *)
+(*            initial buffers, labels / drlv2 / returned n are what the    *)
+(*            brute-force definition over the history gives (last strict   *)
+(*            improvement owns the peak unless its label was presented     *)
+(*            again later; drlv2 = running minimum).                       *)
+(*            The property proper, for a fresh single pass (every label    *)
+(*            once, drlv2 initially "not below tol^2"): BestGrain:         *)
+(*            labels[k] = the grain with the smallest error among those    *)
+(*            < E (the first presented one on exact ties); a peak indexed  *)
+(*            by no grain is -1 when the buffer held -1 OR ANY PRESENTED   *)
+(*            LABEL (zero filled buffers with grain 0: the release branch) *)
+(*            and keeps a value that is no presented label (getind);       *)
+(*            StoredError: drlv2[k] = that minimum; ReturnedCounts;        *)
+(*            Histogram of labels = per-grain counts; OrderIndependent:    *)
+(*            tables without ties give the same final labels for every     *)
+(*            order.  Represent: a second presentation of a label whose    *)
+(*            row does not improve releases the peak and leaves drlv2      *)
+(*            stale (documents what the code does; follows from ClosedForm)*)
+(* bounds     _q      G=R=3 K=2 N=0, buffers -1 / E: all 4^6 tables x 6    *)
+(*                    orders x peak schedules (the property invariants;    *)
+(*                    the release branch cannot fire here)                 *)
+(*            _hist   G=2 R=3 K=1 N=3, labels buffer -1 / 0 / 1 / 2,       *)
+(*                    stored errors 1..E: every history of 1..3 calls      *)
+(*                    (_hist_t: N=4, stored errors 0..E)                   *)
+(*            _dirty_t G=R=3 K=2 N=0, labels buffer -1 / 0 / 1, fresh      *)
+(*            every finished behaviour is emitted (Emit) and replayed into *)
+(*            the real kernel and its callers by harness/props/c07.py      *)
 (***************************************************************************)
 EXTENDS Integers, Sequences, FiniteSets, TLC, Json
 
-CONSTANTS G, K, E, NCHUNK, EmitOn
-Grains == 1..G
+CONSTANTS G, R, K, E, N, LInitU, LInitNN, DInit, EmitOn
+ASSUME G >= 1 /\ R >= G /\ R <= 2 * G /\ K >= 1 /\ E >= 1 /\ N >= 0
+ASSUME LInitU \in BOOLEAN /\ LInitNN \subseteq 0..G /\ DInit \subseteq 0..E
+LInit == LInitNN \cup (IF LInitU THEN {-1} ELSE {})
+Labels == 1..G
+Rows == 1..R
 Peaks == 1..K
-ChunkOf(k) == ((k - 1) % NCHUNK) + 1
+RowLabel(r) == IF r <= G THEN r ELSE r - G
 
-VARIABLES err, order, labels, drlv2, call, pend, nret, rets
-vars == <<err, order, labels, drlv2, call, pend, nret, rets>>
+VARIABLES err, order, lab0, dr0, labels, drlv2, call, pend, nret, rets, snaps
+vars == <<err, order, lab0, dr0, labels, drlv2, call, pend, nret, rets, snaps>>
 
-Perms == {p \in [1..G -> Grains] : \A i, j \in 1..G : i # j => p[i] # p[j]}
+Perms == {p \in [1..R -> Rows] : \A i, j \in 1..R : i # j => p[i] # p[j]}
+Orders == IF N = 0 THEN Perms ELSE UNION {[1..n -> Rows] : n \in 1..N}
 
-Init == /\ err \in [Grains -> [Peaks -> 0..E]]
-        /\ order \in Perms
-        /\ labels = [k \in Peaks |-> -1]
-        /\ drlv2 = [k \in Peaks |-> E]
-        /\ call = 0 /\ pend = {} /\ nret = 0 /\ rets = <<>>
+Init == /\ err \in [Rows -> [Peaks -> 0..E]]
+        /\ order \in Orders
+        /\ lab0 \in [Peaks -> LInit]
+        /\ dr0 \in [Peaks -> DInit]
+        /\ labels = lab0 /\ drlv2 = dr0
+        /\ call = 0 /\ pend = {} /\ nret = 0 /\ rets = <<>> /\ snaps = <<>>
 
 Cur == order[call]
+CurLabel == RowLabel(Cur)
 
-Call == /\ pend = {} /\ call < G /\ (call = 0 \/ Len(rets) = call)
-        /\ call' = call + 1 /\ pend' = 1..NCHUNK /\ nret' = 0
-        /\ UNCHANGED <<err, order, labels, drlv2, rets>>
+Call == /\ pend = {} /\ call < Len(order) /\ Len(rets) = call
+        /\ call' = call + 1 /\ pend' = Peaks /\ nret' = 0
+        /\ UNCHANGED <<err, order, lab0, dr0, labels, drlv2, rets, snaps>>
 
 \* if ((sumsq < tolsq) && (sumsq < drlv2[k])) take ; else if (labels[k] == label) release
 Take(k) == err[Cur][k] < E /\ err[Cur][k] < drlv2[k]
-Chunk(c) == /\ c \in pend
-            /\ labels' = [k \in Peaks |-> IF ChunkOf(k) # c THEN labels[k]
-                                          ELSE IF Take(k) THEN Cur
-                                          ELSE IF labels[k] = Cur THEN -1 ELSE labels[k]]
-            /\ drlv2' = [k \in Peaks |-> IF ChunkOf(k) = c /\ Take(k) THEN err[Cur][k] ELSE drlv2[k]]
-            /\ nret' = nret + Cardinality({k \in Peaks : ChunkOf(k) = c /\ Take(k)})
-            /\ pend' = pend \ {c}
-            /\ UNCHANGED <<err, order, call, rets>>
+TakeP(k) == /\ k \in pend /\ Take(k)
+            /\ labels' = [labels EXCEPT ![k] = CurLabel]
+            /\ drlv2' = [drlv2 EXCEPT ![k] = err[Cur][k]]
+            /\ nret' = nret + 1
+            /\ pend' = pend \ {k}
+            /\ UNCHANGED <<err, order, lab0, dr0, call, rets, snaps>>
+ReleaseP(k) == /\ k \in pend /\ ~Take(k) /\ labels[k] = CurLabel
+               /\ labels' = [labels EXCEPT ![k] = -1]
+               /\ pend' = pend \ {k}
+               /\ UNCHANGED <<err, order, lab0, dr0, drlv2, call, nret, rets, snaps>>
+LeaveP(k) == /\ k \in pend /\ ~Take(k) /\ labels[k] # CurLabel
+             /\ pend' = pend \ {k}
+             /\ UNCHANGED <<err, order, lab0, dr0, labels, drlv2, call, nret, rets, snaps>>
 
 Return == /\ call > 0 /\ pend = {} /\ Len(rets) = call - 1
           /\ rets' = Append(rets, nret)
-          /\ UNCHANGED <<err, order, labels, drlv2, call, pend, nret>>
+          /\ snaps' = Append(snaps, [labels |-> labels, drlv2 |-> drlv2])
+          /\ UNCHANGED <<err, order, lab0, dr0, labels, drlv2, call, pend, nret>>
 
-Next == Call \/ (\E c \in 1..NCHUNK : Chunk(c)) \/ Return
+Next == Call \/ (\E k \in Peaks : TakeP(k) \/ ReleaseP(k) \/ LeaveP(k)) \/ Return
 Spec == Init /\ [][Next]_vars
 
-\* ---- the property ----------------------------------------------------------------------------
-Finished == call = G /\ Len(rets) = G
-MinErr(k) == LET vals == {err[g][k] : g \in Grains} IN CHOOSE m \in vals : \A v \in vals : m <= v
-PosOf(g) == CHOOSE i \in 1..G : order[i] = g
-\* the first presented grain among those attaining the minimum
-Winner(k) == IF MinErr(k) >= E THEN -1
-             ELSE LET c == {g \in Grains : err[g][k] = MinErr(k)}
+\* ---- what the loop does, stated over the whole history (no reference to the stepwise state) ----
+Quiescent == pend = {} /\ Len(rets) = call
+Finished == Quiescent /\ call = Len(order)
+Min(S) == CHOOSE m \in S : \A v \in S : m <= v
+Max(S) == CHOOSE m \in S : \A v \in S : m >= v
+InTol(i, k) == err[order[i]][k] < E
+RunMin(i, k) == Min({dr0[k]} \cup {err[order[j]][k] : j \in {jj \in 1..i : InTol(jj, k)}})
+Takes(i, k) == InTol(i, k) /\ err[order[i]][k] < RunMin(i - 1, k)
+LastTake(n, k) == Max({0} \cup {i \in 1..n : Takes(i, k)})
+Owner(n, k) == IF LastTake(n, k) = 0 THEN lab0[k] ELSE RowLabel(order[LastTake(n, k)])
+ExpLabel(n, k) == IF \E j \in (LastTake(n, k) + 1)..n : RowLabel(order[j]) = Owner(n, k) THEN -1 ELSE Owner(n, k)
+ClosedForm == Quiescent => \A k \in Peaks : labels[k] = ExpLabel(call, k) /\ drlv2[k] = RunMin(call, k)
+Counts == Quiescent => \A i \in 1..call : rets[i] = Cardinality({k \in Peaks : Takes(i, k)})
+\* the same label again with a row that does not improve: the peak is released, the stored error stays
+Represent == (Quiescent /\ call >= 2) => \A k \in Peaks :
+     (/\ LastTake(call - 1, k) >= 1
+      /\ RowLabel(order[call]) = RowLabel(order[LastTake(call - 1, k)])
+      /\ ~Takes(call, k))
+     => labels[k] = -1 /\ drlv2[k] = RunMin(call - 1, k)
+
+\* ---- the property: a fresh single pass ---------------------------------------------------------
+SinglePass == /\ Finished /\ Len(order) = G
+              /\ \A g \in Labels : Cardinality({i \in 1..Len(order) : RowLabel(order[i]) = g}) = 1
+Fresh == \A k \in Peaks : dr0[k] = E
+RowOf(g) == order[CHOOSE i \in 1..Len(order) : RowLabel(order[i]) = g]
+PosOf(g) == CHOOSE i \in 1..Len(order) : RowLabel(order[i]) = g
+MinErr(k) == Min({err[RowOf(g)][k] : g \in Labels})
+\* the first presented grain among those attaining the minimum ; nobody: -1, or the untouched foreign value
+Nobody(k) == IF lab0[k] \in Labels \cup {-1} THEN -1 ELSE lab0[k]
+Winner(k) == IF MinErr(k) >= E THEN Nobody(k)
+             ELSE LET c == {g \in Labels : err[RowOf(g)][k] = MinErr(k)}
                   IN CHOOSE g \in c : \A h \in c : PosOf(g) <= PosOf(h)
-BestGrain == Finished => \A k \in Peaks : labels[k] = Winner(k)
-StoredError == Finished => \A k \in Peaks : drlv2[k] = (IF MinErr(k) < E THEN MinErr(k) ELSE E)
+BestGrain == (SinglePass /\ Fresh) => \A k \in Peaks : labels[k] = Winner(k)
+Unassigned == (SinglePass /\ Fresh) => \A k \in Peaks : (MinErr(k) >= E /\ lab0[k] # 0) => labels[k] = -1
+StoredError == (SinglePass /\ Fresh) => \A k \in Peaks : drlv2[k] = (IF MinErr(k) < E THEN MinErr(k) ELSE E)
 \* returned counts: call i took exactly the peaks on which its grain strictly improves on all earlier ones
-ReturnedCounts == Finished => \A i \in 1..G :
+ReturnedCounts == (SinglePass /\ Fresh) => \A i \in 1..G :
      rets[i] = Cardinality({k \in Peaks : /\ err[order[i]][k] < E
                                           /\ \A j \in 1..(i - 1) : err[order[i]][k] < err[order[j]][k]})
-Histogram == Finished => \A g \in Grains :
+Histogram == (SinglePass /\ Fresh) => \A g \in Labels :
      Cardinality({k \in Peaks : labels[k] = g}) = Cardinality({k \in Peaks : Winner(k) = g})
-\* labels only ever name grains already presented; a held label's stored error is that grain's error
-Sane == \A k \in Peaks : \/ labels[k] = -1
-                         \/ (\E i \in 1..call : order[i] = labels[k]) /\ drlv2[k] = err[labels[k]][k]
-NoTies == \A k \in Peaks : \A g, h \in Grains : (g # h /\ err[g][k] < E) => err[g][k] # err[h][k]
+\* a held label's stored error is the error of a presented row with that label, or the buffer is untouched
+Sane == \A k \in Peaks : /\ drlv2[k] <= dr0[k]
+                         /\ \/ labels[k] = -1
+                            \/ labels[k] = lab0[k] /\ drlv2[k] = dr0[k]
+                            \/ \E i \in 1..call : RowLabel(order[i]) = labels[k] /\ drlv2[k] = err[order[i]][k]
+NoTies == \A k \in Peaks : \A g, h \in Rows : (g # h /\ err[g][k] < E) => err[g][k] # err[h][k]
 \* for tie-free tables the winner does not depend on the order: it is the argmin
-OrderIndependent == (Finished /\ NoTies) =>
-     \A k \in Peaks : labels[k] = (IF MinErr(k) >= E THEN -1 ELSE CHOOSE g \in Grains : err[g][k] = MinErr(k))
+OrderIndependent == (SinglePass /\ Fresh /\ NoTies) =>
+     \A k \in Peaks : labels[k] = (IF MinErr(k) >= E THEN Nobody(k)
+                                   ELSE CHOOSE g \in Labels : err[RowOf(g)][k] = MinErr(k))
 
 Emit == (Finished /\ EmitOn) =>
-   PrintT("@@" \o ToJson([err |-> err, order |-> order, labels |-> labels, drlv2 |-> drlv2, rets |-> rets,
-                          noties |-> IF NoTies THEN 1 ELSE 0]))
+   PrintT("@@" \o ToJson([err |-> err, order |-> order, lab0 |-> lab0, dr0 |-> dr0, labels |-> labels, drlv2 |-> drlv2,
+                          rets |-> rets, snaps |-> snaps, noties |-> IF NoTies THEN 1 ELSE 0,
+                          pass |-> IF SinglePass /\ Fresh THEN 1 ELSE 0]))
 =============================================================================
